@@ -14,7 +14,7 @@ OBLIGATIONS = [
 BUILDS = G.BUILDS
 ASSUMPTIONS = G.COMMON_ASSUMPTIONS + [
     "names are abstract ids in the model (the fixed in-memory store keys its maps by the (group, topic, partition) struct); the harness maps ids to names that contain ':', '/', spaces and non-ASCII characters, including pairs that collide under the old \"%s:%s:%d\" key",
-    "the etcd store is not driven by this check: its key \"/kafscale/consumers/<group>/offsets/<topic>/<partition>\" is modelled in Props/C16 and shown to alias for names containing '/' (known finding, see notes/C16.md)",
+    "the etcd store (embedded etcd, offline) runs a share of the histories with names that do not contain '/'; its key \"/kafscale/consumers/<group>/offsets/<topic>/<partition>\" is modelled in Props/C16 and shown to alias for names containing '/' — reproduced on the real EtcdStore by a fixed probe history and proposed as a known finding (notes/C16.md); the probe is reported through known_findings.json only once the entry is registered",
 ]
 LEVEL_TEXT = ("Lean 4 theorems about the executable model of OffsetCommit/OffsetFetch over the store's offset map, for every "
               "history: an offset fetch returns for every key the offset and metadata of the last successful commit to that "
@@ -88,8 +88,35 @@ def monitor(tr):
     return out
 
 
+ETCD_FP = "etcd-offset-key-slash-aliasing"
+# group 5 = "a/offsets/b", topic 5 = "c";  group 4 = "a", topic 6 = "b/offsets/c": one etcd key
+ETCD_PROBE = ["reset etcd", "meta 0=0", "join 5 c1 30000 30000 1 1 0", "sync 5 c1 @", "commit 5 c1 @ 5:0:41:1", "fetch 4 6:0"]
+
+
+def etcd_probe(ck):
+    """The etcd store's key "/kafscale/consumers/<group>/offsets/<topic>/<partition>" aliases for names with '/'.
+    Proposed known finding (notes/C16.md): reported through ck.violation only when known_findings.json lists it."""
+    bins = ck.build_all()
+    if bins is None:
+        return
+    io = G.run_impl(ck, bins["h"], ETCD_PROBE, "etcdprobe")
+    if io is None:
+        return
+    hits = [x for x in monitor(G.Trace(ETCD_PROBE, io)) if x[1] in ("commit-visible-under-other-key", "never-committed-not-minus-one")]
+    ck.count("etcd_slash_alias_probe_reproduced", 1 if hits else 0)
+    if not hits:
+        return
+    what = "EtcdStore: commit to group \"a/offsets/b\" topic \"c\" is read back as group \"a\" topic \"b/offsets/c\" (%s)" % hits[0][2]
+    registered = any(k.get("property") == "C16" and k.get("fingerprint") == ETCD_FP and k.get("status", "open") == "open" for k in ck.known)
+    if registered:
+        ck.violation(ETCD_FP, what, {"ops": ETCD_PROBE, "actual": what})
+    else:
+        ck.notes.append("known finding proposed, not registered in known_findings.json: " + what)
+
+
 def run(ck):
-    G.run_property(ck, PROFILE, monitor, n_quick=60, n_thorough=600, nops=45, rule=RULE)
+    G.run_property(ck, PROFILE, monitor, n_quick=200, n_thorough=2000, nops=45, rule=RULE)
+    etcd_probe(ck)
 
 
 def replay(ck, path):
